@@ -63,7 +63,7 @@ func init() {
 			}
 			// the local holding the old batch
 			var old types.Object
-			ast.Inspect(f.Decl.Body, func(nd ast.Node) bool {
+			inspect(f.Decl.Body, func(nd ast.Node) bool {
 				if as, ok := nd.(*ast.AssignStmt); ok && as.Tok == token.DEFINE && len(as.Lhs) == 1 && len(as.Rhs) == 1 && prog.SelField(info, as.Rhs[0]) == batch {
 					old = prog.IdentObj(info, as.Lhs[0])
 				}
@@ -199,7 +199,7 @@ func init() {
 			r.Site(f.Decl.Pos(), "EventBatcher.Add appends exactly once")
 			// timer closure
 			var setCall *ast.CallExpr
-			ast.Inspect(f.Decl.Body, func(nd ast.Node) bool {
+			inspect(f.Decl.Body, func(nd ast.Node) bool {
 				if call, ok := nd.(*ast.CallExpr); ok {
 					if sel, ok := ast.Unparen(call.Fun).(*ast.SelectorExpr); ok && prog.SelField(info, sel.X) == timer && sel.Sel.Name == "Set" {
 						setCall = call
@@ -223,7 +223,7 @@ func init() {
 				return
 			}
 			okSend := false
-			ast.Inspect(lit.Body, func(nd ast.Node) bool {
+			inspect(lit.Body, func(nd ast.Node) bool {
 				if send, ok := nd.(*ast.SendStmt); ok && prog.SelField(info, send.Chan) == timedOut {
 					if o := prog.IdentObj(info, send.Value); o != nil {
 						if def := localDef(info, f.Decl.Body, o); def != nil && prog.SelField(info, def) == tok {
@@ -328,7 +328,7 @@ func init() {
 			}
 			var item types.Object
 			okLookup := false
-			ast.Inspect(lit.Body, func(nd ast.Node) bool {
+			inspect(lit.Body, func(nd ast.Node) bool {
 				if as, ok := nd.(*ast.AssignStmt); ok && len(as.Lhs) == 2 && len(as.Rhs) == 1 {
 					if ix, ok := ast.Unparen(as.Rhs[0]).(*ast.IndexExpr); ok && prog.SelField(info, ix.X) == items {
 						if prog.SelField(info, ix.Index) == cursor {
@@ -400,7 +400,7 @@ func init() {
 			r.Sim(lit, d.Name()+"$iter", spec)
 			// stops at the first gap: the else / !ok branch breaks
 			stops := false
-			ast.Inspect(lit.Body, func(nd ast.Node) bool {
+			inspect(lit.Body, func(nd ast.Node) bool {
 				if b, ok := nd.(*ast.BranchStmt); ok && b.Tok == token.BREAK {
 					stops = true
 				}
@@ -418,7 +418,7 @@ func init() {
 			r.Site(rs.Decl.Pos(), "Reserve hands out nextSeqNum then increments it")
 			var seq types.Object
 			var defPos, incPos token.Pos
-			ast.Inspect(rs.Decl.Body, func(nd ast.Node) bool {
+			inspect(rs.Decl.Body, func(nd ast.Node) bool {
 				switch x := nd.(type) {
 				case *ast.AssignStmt:
 					if len(x.Lhs) == 1 && len(x.Rhs) == 1 && prog.SelField(ri, x.Rhs[0]) == next {
@@ -432,7 +432,7 @@ func init() {
 				return true
 			})
 			retOK := false
-			ast.Inspect(rs.Decl.Body, func(nd ast.Node) bool {
+			inspect(rs.Decl.Body, func(nd ast.Node) bool {
 				if ret, ok := nd.(*ast.ReturnStmt); ok && len(ret.Results) == 1 && seq != nil && prog.IdentObj(ri, ret.Results[0]) == seq {
 					retOK = true
 				}
@@ -445,7 +445,7 @@ func init() {
 			ad := r.P.Func("batching", "(*ReorderBuffer).Add")
 			ai := ad.Pkg.TypesInfo
 			okAdd := false
-			ast.Inspect(ad.Decl.Body, func(nd ast.Node) bool {
+			inspect(ad.Decl.Body, func(nd ast.Node) bool {
 				if as, ok := nd.(*ast.AssignStmt); ok && len(as.Lhs) == 1 && len(as.Rhs) == 1 {
 					if ix, ok := ast.Unparen(as.Lhs[0]).(*ast.IndexExpr); ok && prog.SelField(ai, ix.X) == items && r.isParam(ad, ix.Index, 0) && r.isParam(ad, as.Rhs[0], 1) {
 						okAdd = true
@@ -464,7 +464,7 @@ func init() {
 			flushFn := r.P.FuncObj("batching", "(*EventBatcher).Flush")
 			fetch := r.P.Field("batching", "ReorderFetcher", "fetchBatch")
 			okIdent := false
-			ast.Inspect(fl.Decl.Body, func(nd ast.Node) bool {
+			inspect(fl.Decl.Body, func(nd ast.Node) bool {
 				call, ok := nd.(*ast.CallExpr)
 				if !ok || r.P.CalleeFunc(fi, call) != ad.Obj || len(call.Args) != 2 {
 					return true
@@ -482,7 +482,7 @@ func init() {
 						}
 						if lit, ok := ast.Unparen(c.Fun).(*ast.FuncLit); ok && depth < 2 {
 							okAll, n := true, 0
-							ast.Inspect(lit.Body, func(m ast.Node) bool {
+							inspect(lit.Body, func(m ast.Node) bool {
 								if inner, ok := m.(*ast.FuncLit); ok && inner != lit {
 									return false
 								}
@@ -503,7 +503,7 @@ func init() {
 						return false
 					}
 					n, okAll := 0, true
-					ast.Inspect(fl.Decl.Body, func(m ast.Node) bool {
+					inspect(fl.Decl.Body, func(m ast.Node) bool {
 						if as, ok := m.(*ast.AssignStmt); ok {
 							for i, l := range as.Lhs {
 								if prog.IdentObj(fi, l) != obj {
@@ -538,7 +538,7 @@ func init() {
 			// every reserved number is filled: after Reserve every path of flush reaches the goroutine that
 			// calls buffer.Add, and inside that goroutine every path calls buffer.Add (Drain stops at a gap forever)
 			var goLit *ast.FuncLit
-			ast.Inspect(fl.Decl.Body, func(nd ast.Node) bool {
+			inspect(fl.Decl.Body, func(nd ast.Node) bool {
 				if gs, ok := nd.(*ast.GoStmt); ok {
 					if lit, ok := gs.Call.Fun.(*ast.FuncLit); ok && r.exprCalls(fi, lit.Body, ad.Obj) {
 						goLit = lit
@@ -590,13 +590,13 @@ func init() {
 			out := r.P.Field("batching", "ReorderFetcher", "Output")
 			drainFn := d.Obj
 			okOut := false
-			ast.Inspect(fl.Decl.Body, func(nd ast.Node) bool {
+			inspect(fl.Decl.Body, func(nd ast.Node) bool {
 				rsx, ok := nd.(*ast.RangeStmt)
 				if !ok {
 					return true
 				}
 				if call, ok := ast.Unparen(rsx.X).(*ast.CallExpr); ok && r.P.CalleeFunc(fi, call) == drainFn {
-					ast.Inspect(rsx.Body, func(m ast.Node) bool {
+					inspect(rsx.Body, func(m ast.Node) bool {
 						if send, ok := m.(*ast.SendStmt); ok && prog.SelField(fi, send.Chan) == out {
 							okOut = true
 						}
@@ -618,7 +618,7 @@ func init() {
 // before this event).
 func (r *Run) mustPrecedeNot(f *prog.FuncInfo, setCall *ast.CallExpr, batch *types.Var) {
 	info := f.Pkg.TypesInfo
-	ast.Inspect(f.Decl.Body, func(nd ast.Node) bool {
+	inspect(f.Decl.Body, func(nd ast.Node) bool {
 		if as, ok := nd.(*ast.AssignStmt); ok && len(as.Lhs) == 1 && prog.SelField(info, as.Lhs[0]) == batch {
 			if as.Pos() < setCall.Pos() {
 				r.Fail(f.Name()+":arm-after-append", setCall.Pos(), nil, "the time-out is armed after the event was appended: the emptiness test then never holds for a one-element batch and a lone event is never flushed by time-out")
